@@ -125,6 +125,16 @@ def inner_apps(tmpdir):
                                                   ("Proxy-Authenticate", 'Basic realm="x"'), ("Keep-Alive", "timeout=5")])
         return [b"upgrade"]
 
+    def raw_restart(environ, start_response):
+        # PEP 3333: until body bytes went out an application may replace its response with start_response(.., exc_info)
+        start_response("200 OK", [("X-Raw", "first")])
+        try:
+            raise LookupError("report unavailable")
+        except LookupError:
+            import sys
+            start_response("500 Internal Server Error", [("X-Raw", "second"), ("Content-Type", "text/plain")], sys.exc_info())
+        return [b"report unavailable"]
+
     async def araw_hop(scope, receive, send):
         await send({"type": "http.response.start", "status": 426, "headers": [
             (b"upgrade", b"TLS/1.3"), (b"connection", b"Upgrade"), (b"x-raw", b"1"), (b"proxy-authenticate", b'Basic realm="x"'),
@@ -158,7 +168,7 @@ def inner_apps(tmpdir):
                 extra["chunks/%s/%s" % (kind, ",".join(c.decode() or "-" for c in seq))] = chunk_apps(kind, seq)
     raw = {**extra, "raw_list": (raw_list, araw, False), "raw_tuple": (raw_tuple, araw, False), "raw_gen": (raw_gen, araw, False),
            "raw_empty": (raw_empty, araw_empty, False), "raw_dup_headers": (raw_dup, araw_dup, True),
-           "raw_high_bytes": (raw_high, araw_high, False), "raw_hop_by_hop": (raw_hop, araw_hop, False)}
+           "raw_high_bytes": (raw_high, araw_high, False), "raw_hop_by_hop": (raw_hop, araw_hop, False), "raw_restart_with_exc_info": (raw_restart, araw, False)}
     return apps, raw
 
 
